@@ -450,7 +450,29 @@ def _property_overrides_method():
     return M1().x
 
 
-for _name, _thunk in (("slice-bound-with-index-method", _slice_bound_with_index_method), ("result-parameter", _result_parameter), ("OLD-parameter", _old_parameter), ("result-keyword", _result_keyword),
+def _constructor_is_a_callable_object():
+    class Traced:
+        """A decorator written as a class: what it returns is an object with __call__ and __get__, not a function."""
+
+        def __init__(self, func):
+            self.func = func
+
+        def __get__(self, instance, owner):
+            return self if instance is None else (lambda *args, **kwargs: self.func(instance, *args, **kwargs))
+
+        def __call__(self, *args, **kwargs):
+            return self.func(*args, **kwargs)
+
+    @icontract.invariant(lambda self: self.v > 0, enabled=True)
+    class A:
+        @Traced
+        def __init__(self, v):
+            self.v = v
+
+    return A(-1).v
+
+
+for _name, _thunk in (("constructor-is-a-callable-object", _constructor_is_a_callable_object), ("slice-bound-with-index-method", _slice_bound_with_index_method), ("result-parameter", _result_parameter), ("OLD-parameter", _old_parameter), ("result-keyword", _result_keyword),
                       ("result-parameter-async", _result_parameter_async), ("property-overrides-method", _property_overrides_method), ("coroutine-invariant", _coroutine_invariant), ("coroutine-condition", _coroutine_condition),
                       ("coroutine-capture", _coroutine_capture), ("require-added-to-inherited-groups", _require_added_to_inherited_groups),
                       ("weaken-enabled-base", _weaken_enabled_base), ("weaken-enabled-base-violation", _weaken_enabled_base_violation),
